@@ -197,6 +197,19 @@ def inproc_connect_race(how, off):
     return mk("inprocrace-%s-%d" % (how, off), socks, tasks, {"closed": ["rx", "tx0", "tx1", "tx2"], "how": how})
 
 
+def api_race(how, op, off):
+    """an API call that goes through the socket's mailbox, issued within a millisecond of close() / term() of
+    that very socket: it must return (Mailbox.tla AllReturn), with whatever result"""
+    ops = {"connect": {"op": "connect", "sock": "s", "ep": "tcp://127.0.0.1:9"}, "bind": {"op": "bind", "sock": "s", "ep": "tcp://127.0.0.1:0"},
+           "opt": {"op": "opt", "sock": "s", "id": S.SNDHWM, "kind": "i32", "value": 7}, "getopt": {"op": "getopt", "sock": "s", "id": S.SNDHWM},
+           "monitor": {"op": "monitor", "sock": "s"}}
+    tasks = [{"name": "b", "ops": [{"op": "barrier", "name": "go", "parties": 4}, {"op": "sleep", "ms": 30}, shutdown_op(how, "s"), {"op": "sleep", "ms": 300},
+                                  {"op": "live_actors", "ctx": 0}]}]
+    for i in range(3):
+        tasks.append({"name": "c%d" % i, "ops": [{"op": "barrier", "name": "go", "parties": 4}, {"op": "sleep", "ms": max(0, 30 + off + i - 1)}, dict(ops[op])]})
+    return mk("apirace-%s-%s-%d" % (how, op, off), [{"name": "s", "type": "PUSH", "opts": []}], tasks, {"closed": ["s"], "how": how})
+
+
 def build(thorough, rng):
     scs = []
     for tr in ["tcp", "ipc", "inproc"]:
@@ -230,6 +243,10 @@ def build(thorough, rng):
     for how in ["close", "term"]:
         for off in ([-3, -1, 0, 1, 2, 4] if thorough else [-1, 0, 1]):
             scs.append(inproc_connect_race(how, off))
+    for how in ["close", "term"]:
+        for op in (["connect", "bind", "opt", "getopt", "monitor"] if thorough else ["connect", "opt", "monitor"]):
+            for off in ([-1, 0, 1] if thorough else [0]):
+                scs.append(api_race(how, op, off))
     uid = 0
     for k in range(len(SCRIPT) + 1):
         for (how, which) in ([("close", "s1"), ("close", "s2"), ("term", "s1")] if thorough else [("close", "s1" if k % 2 else "s2"), ("term", "s1")]):
@@ -344,6 +361,12 @@ def run(ctx):
     seen["DeafSubscriber(Inproc)"] = res.violated
     if not res.violated:
         raise vlib.ToolError("Inproc.tla no longer shows connect() hanging when a subscriber holds the bus slot without reading")
+    # API calls through the mailbox against the end of the command loop
+    ctx.model_check("MC_Mailbox", "MC_Mailbox_quick.cfg", workers=4, timeout=900)
+    res = vlib.tlc("MC_Mailbox", "MC_Mailbox_asis.cfg", os.path.join(ctx.work, "tlc_MailboxKeepQueue"), workers=2, timeout=600, coverage=False)
+    seen["KeepQueue(Mailbox)"] = res.violated
+    if not res.violated:
+        raise vlib.ToolError("Mailbox.tla no longer shows the call that never returns when the queue outlives the receiver")
     ctx.selftest["model_finds_pinned_defects"] = seen
 
     # B2: WaitGroup::wait against the last done() under the controlled scheduler
